@@ -20,7 +20,7 @@ from . import common
 from . import key_driver as kd
 
 NOTOL = 99
-ALL_FLOATS = set(range(1, 15))
+ALL_FLOATS = set(range(1, 17))
 ALL_OTHERS = {21, 22, 23, 24, 25, 26, 27, 28, 29}
 ALL_SHAPES = set(range(1, 24))
 ALIAS_SHAPES = {22, 23}        # calls that contain equal containers: also made with ONE shared object in their place
@@ -29,7 +29,7 @@ QUICK_ALPHA = {
     None: ({2, 3}, {21, 23}),
     -1: ({9, 10, 11, 12}, {22, 27, 23}),
     0: ({1, 2, 3, 13, 14}, {21, 23, 24, 28}),      # 28: a one-shot iterator
-    1: ({4, 5, 6, 7}, {21, 23, 25, 29}),         # 29: a class object
+    1: ({4, 5, 6, 7, 15, 16}, {21, 23, 25, 29}),         # 29: a class object; 15, 16: negative values that round to -0.0
     2: ({4, 5, 7, 8}, {21, 26}),
 }
 DEVIATIONS = {
@@ -272,15 +272,18 @@ def run_cached(klepto, group, cfg):
     classes = kd.Classes()
     fresh = [-1]
     events = []
-    calls = [(c, False) for c in group['calls']]
+    calls = [(c, False, cfg['form']) for c in group['calls']]
     if cfg.get('alias'):
         # every call twice: first with its equal containers being one shared object, then with separate equal objects
-        calls = [(c, al) for c in group['calls'] for al in (True, False)]
-    for c, aliased in calls:
+        calls = [(c, al, cfg['form']) for c in group['calls'] for al in (True, False)]
+    if cfg['form'] == 'mix':
+        # every call in its three spellings, one after the other: the spelling must not matter to the rounding
+        calls = [(c, False, fm) for c in group['calls'] for fm in ('pos', 'allkw', 'kw')]
+    for c, aliased, form in calls:
         def args_of():
             memo = {} if aliased else None
-            return spell(cfg['form'], build(c[0], memo), build(c[1], memo), dflt)
-        e = {'call': c, 'exc': 'none', 'kind': 'none', 'evals': 0, 'kc': -1, 'base': 'none', 'recv': []}
+            return spell(form, build(c[0], memo), build(c[1], memo), dflt)
+        e = {'call': c, 'exc': 'none', 'kind': 'none', 'evals': 0, 'kc': -1, 'base': 'none', 'recv': [], 'form': form}
         # the same call without rounding: is it a valid call for this configuration at all?
         a, k = args_of()
         try:
@@ -403,7 +406,7 @@ def main(pid, tier):
         if thorough:
             # the tolerance's own alphabet plus a rotating sample of the other leaves (negative values would round
             # to -0.0 at tol=-1 and are left out there)
-            more = sorted(ALL_FLOATS - fl - ({13, 14} if tol == -1 else set()))
+            more = sorted(ALL_FLOATS - fl - ({13, 14} if tol == -1 else set()) - ({15, 16} if tol not in (1, 2) else set()))
             rng.shuffle(more)
             fl = set(fl) | set(more[:3])
             ot = set(ot) | set(rng.sample(sorted(ALL_OTHERS - ot), 2))
@@ -446,6 +449,12 @@ def main(pid, tier):
                         for form in ('allkw', 'kw', 'pos', 'kwnames', 'omit') if thorough else (('allkw', 'kw', 'kwnames', 'omit') if mode == 'std' else ('allkw', 'kwnames')):
                             for deep in ((False, True) if thorough else (False,)):
                                 jobs.append((g, dict(tol=tol, deep=deep, enc='str', mode=mode, form=form, alg=alg)))
+                # every call in all its spellings within one history (shallow and deep rounding, textual and pickled keys)
+                for deep in (False, True):
+                    for enc in ('str', 'pickle', 'hash') if thorough else ('str', 'pickle'):
+                        for mode in ('keygen', 'std', 'safe') if thorough else ('keygen', ['std', 'safe'][len(jobs) % 2]):
+                            jobs.append((g, dict(tol=tol, deep=deep, enc=enc, mode=mode, form='mix',
+                                                 **({} if mode == 'keygen' else {'alg': ALGS[len(jobs) % len(ALGS)]}))))
             for which in ('simple', 'shallow', 'deep'):
                 if which == 'shallow' and g['sh'] in TOP_DICT_SHAPES:
                     continue
@@ -472,7 +481,7 @@ def main(pid, tier):
             nrej += 1
             e = t['events'][v[0] - 1]
             rep.reject(signature(t, v), {'config': t['meta'], 'call': e['call'],
-                                         'python_call': repr(spell(t['meta']['form'], build(e['call'][0]), build(e['call'][1]), OMIT_DEFAULT.get(t['meta'].get('tol'), 0.125))),
+                                         'python_call': repr(spell(e.get('form', t['meta']['form']), build(e['call'][0]), build(e['call'][1]), OMIT_DEFAULT.get(t['meta'].get('tol'), 0.125))),
                                          'event': e, 'clauses': v[1],
                                          'earlier_calls': [x['call'] for x in t['events'][:v[0] - 1]][-30:]})
         nxt = [dict(t, events=t['events'][:v[0] - 1] + t['events'][v[0]:]) for t, v in pending if len(t['events']) > v[0]]
@@ -503,7 +512,7 @@ def main(pid, tier):
     return rep.finish('model_checking', cov, [
         'float leaves are dyadic rationals (0.5, 1.5, 2.5, 0.125, 0.0625, 0.25, 0.15625, 0.1171875, 12.0, 15.0, 25.0, 17.5, '
         '-2.5, -1.5), so exact half-to-even rounding is what a correctly rounded round() returns; values that would round to '
-        '-0.0 are not generated (whether -0.0 and 0.0 share a key depends on the encoder, and the statement does not say)',
+        '-0.0 are generated only at tolerances where no other leaf rounds to +0.0 (whether -0.0 and 0.0 share a key depends on the encoder, and the statement does not say; that the SAME negative value spelled positionally and by keyword shares a key it does say)',
         'argument structures: 16 shapes (scalars, list, tuple, set, frozenset, dict with str keys, dict with int keys, nesting '
         'to depth 3, positional and keyword position) x two leaves; float dict KEYS are not generated',
         'merging of arguments that contain sets is only demanded under the raw keymap (textual/pickled forms of a set depend '
